@@ -87,8 +87,8 @@ NoDups(s) == Cardinality(SeqSet(s)) = Len(s)
 RulesMatch(want, got) ==
   /\ Len(want) = Len(got)
   /\ \A j \in DOMAIN want : /\ SeqSet(got[j].tg) = want[j].tg /\ NoDups(got[j].tg)
-                              /\ SeqSet(got[j].src) = want[j].src /\ NoDups(got[j].src)
-                              /\ got[j].cmd = want[j].cmd
+                            /\ SeqSet(got[j].src) = want[j].src /\ NoDups(got[j].src)
+                            /\ got[j].cmd = want[j].cmd
 \* two files given to parse_all: the rules of both in order, or the first error, naming the file it is in
 AllowedMulti(rec) ==
   LET o1 == Oracle(rec.lines1)  o2 == Oracle(rec.lines2) IN
